@@ -2,6 +2,7 @@
 // Written from the gABI / GNU format texts and the property statements, not from the code.
 
 use vstd::string::StringSliceAdditionalSpecFns;
+use vstd::std_specs::cmp::PartialEqSpec;
 #[verifier::external_type_specification]
 #[verifier::external_body]
 pub struct ExTryFromSliceError(core::array::TryFromSliceError);
@@ -59,6 +60,17 @@ pub fn shim_i64_from_be_bytes(b: [u8; 8]) -> (r: i64) ensures r as int == sval(f
 pub assume_specification<'a, T: Copy, const N: usize>[ <[T; N] as TryFrom<&'a [T]>>::try_from ](s: &[T]) -> (r: Result<[T; N], core::array::TryFromSliceError>)
     ensures s@.len() == N ==> (r is Ok && r->Ok_0@ == s@),
             s@.len() != N ==> r is Err;
+
+// ---- A16: `!=` between a slice reference and an array is the negation of `==` (core defines both; vstd specifies only eq)
+pub assume_specification<'a, T: PartialEq<U>, U, const N: usize> [ <&'a [T] as PartialEq<[U; N]>>::ne ] (a: &&'a [T], b: &[U; N]) -> (r: bool)
+    ensures r == !((*a).eq_spec(b));
+pub proof fn lemma_slice_array_eq_u8<const N: usize>(a: &[u8], b: &[u8; N])
+    ensures a.eq_spec(b) == (a@ == b@)
+{
+    assert(a.eq_spec(b) == (a@.len() == N && forall|i: int| 0 <= i < N ==> (#[trigger] a@[i]).eq_spec(&b@[i])));
+    assert(forall|x: u8, y: u8| x.eq_spec(&y) == (x == y));
+    if a.eq_spec(b) { assert(a@ =~= b@); }
+}
 
 // ---- A4: u32::checked_shr
 pub assume_specification [u32::checked_shr] (x: u32, n: u32) -> (r: Option<u32>)
